@@ -241,6 +241,9 @@ var c08Menu = []string{
 	// the *One / Must* / gen-node variants of the shared-path operations
 	"jp.SetOne", "jp.DelOne", "jp.ModifyOne", "jp.RemoveOne", "jp.MustSet", "jp.MustDel", "jp.MustModify", "jp.MustRemove", "jp.FirstFound",
 	"jp.GetNodes(gen)", "jp.FirstNode(gen)", "jp.Get(gen)", "jp.Set(gen)", "jp.Has(gen)", "jp.Locate(gen)", "jp.Remove(gen)", "jp.BracketString+Normal",
+	// the Must* / *Reader variants of the pooled package-level functions, valid and failing
+	"sen.MustParseReader", "sen.MustParseReader(invalid or reader error)", "oj.MustLoad", "oj.MustLoad(invalid or reader error)", "oj.MustParse(invalid)", "sen.MustParse(invalid)",
+	"oj.MustParseString", "oj.ParseString(invalid)", "sen.MustWrite(failing writer)", "sen.Write(failing writer, big)",
 	// sources that spell a key in more than one way
 	"alt.Recompose(two spellings)", "Recomposer.Recompose(two spellings)",
 }
@@ -363,7 +366,7 @@ func drawOp08(t *rapid.T, th *theme08) *op08 {
 	switch {
 	case o.Fn == "oj.Marshal(unencodable)":
 		o.Val = make(chan int)
-	case strings.Contains(o.Fn, "failing") || strings.Contains(o.Fn, "panicking") || strings.Contains(o.Fn, "reader error") || strings.Contains(o.Fn, "callback") || strings.Contains(o.Fn, "empty") || strings.Contains(o.Fn, "big") || strings.Contains(o.Fn, "invalid") || strings.Contains(o.Fn, "ints") || o.Fn == "alt.GenAlter(struct)" || o.Fn == "alt.Alter(struct)" || strings.Contains(o.Fn, "keeper") || strings.HasSuffix(o.Fn, "(struct)") && strings.HasPrefix(o.Fn, "jp.") || strings.HasPrefix(o.Fn, "alt.Recompose(") || strings.HasPrefix(o.Fn, "Recomposer.") || strings.HasSuffix(o.Fn, "(many types)") || strings.HasPrefix(o.Fn, "jp.Parse") || strings.HasSuffix(o.Fn, "One") || strings.HasPrefix(o.Fn, "jp.Must") || strings.HasSuffix(o.Fn, "(gen)") || o.Fn == "jp.FirstFound" || o.Fn == "jp.BracketString+Normal" || strings.HasSuffix(o.Fn, "(two spellings)"):
+	case strings.Contains(o.Fn, "failing") || strings.Contains(o.Fn, "panicking") || strings.Contains(o.Fn, "reader error") || strings.Contains(o.Fn, "callback") || strings.Contains(o.Fn, "empty") || strings.Contains(o.Fn, "big") || strings.Contains(o.Fn, "invalid") || strings.Contains(o.Fn, "ints") || o.Fn == "alt.GenAlter(struct)" || o.Fn == "alt.Alter(struct)" || strings.Contains(o.Fn, "keeper") || strings.HasSuffix(o.Fn, "(struct)") && strings.HasPrefix(o.Fn, "jp.") || strings.HasPrefix(o.Fn, "alt.Recompose(") || strings.HasPrefix(o.Fn, "Recomposer.") || strings.HasSuffix(o.Fn, "(many types)") || strings.HasPrefix(o.Fn, "jp.Parse") || strings.Contains(o.Fn, "Must") || o.Fn == "oj.ParseString(invalid)" || o.Fn == "sen.Write(failing writer, big)" || strings.HasSuffix(o.Fn, "One") || strings.HasPrefix(o.Fn, "jp.Must") || strings.HasSuffix(o.Fn, "(gen)") || o.Fn == "jp.FirstFound" || o.Fn == "jp.BracketString+Normal" || strings.HasSuffix(o.Fn, "(two spellings)"):
 	case strings.HasPrefix(o.Fn, "oj.JSON"), strings.HasPrefix(o.Fn, "oj.Marshal"), strings.HasPrefix(o.Fn, "oj.Write"), strings.HasPrefix(o.Fn, "sen.String"), o.Fn == "sen.Bytes", o.Fn == "sen.Write", strings.HasPrefix(o.Fn, "pretty."), o.Fn == "alt.Decompose", o.Fn == "alt.Generify(struct)":
 		// (pretty.WriteJSON included)
 		o.Val, o.Desc = drawVal08(t)
@@ -697,6 +700,70 @@ func (o *op08) exec() (r ret08) {
 		src := []any{map[string]int{"a": o.A, "b": o.B}, map[string]any{"c": o.A + o.B}, map[string]int{fmt.Sprintf("k%d", o.B): 1}}
 		_, err := alt.Recompose(src, &out)
 		r.canon = fmt.Sprintf("%v %v", err != nil, derefAll(reflect.ValueOf(out)))
+	case "sen.MustParseReader", "sen.MustParseReader(invalid or reader error)", "oj.MustLoad", "oj.MustLoad(invalid or reader error)", "oj.MustParse(invalid)", "sen.MustParse(invalid)", "oj.MustParseString", "oj.ParseString(invalid)":
+		var v any
+		var err error
+		func() {
+			defer func() {
+				if p := recover(); p != nil {
+					err = fmt.Errorf("%v", p) // the Must* variants report through a panic
+				}
+			}()
+			failing := strings.Contains(o.Fn, "invalid")
+			switch {
+			case strings.HasPrefix(o.Fn, "sen.MustParseReader"):
+				d := senDoc(o.A % 2)
+				sch := &sim.Schedule{Every: 3, FailAt: -1}
+				if failing {
+					if o.B%2 == 0 {
+						d = senDoc(2) // truncated
+					} else {
+						sch.FailAt = (o.B * (len(d) + 1)) / 63 % (len(d) + 1)
+					}
+				}
+				v = sen.MustParseReader(sim.NewSimReader(d, sch))
+			case strings.HasPrefix(o.Fn, "oj.MustLoad"):
+				d := doc(o.A % 3)
+				sch := &sim.Schedule{Every: 3, FailAt: -1}
+				if failing {
+					if o.B%2 == 0 {
+						d = doc(5 + o.A%2) // truncated
+					} else {
+						sch.FailAt = (o.B * (len(d) + 1)) / 63 % (len(d) + 1)
+					}
+				}
+				v = oj.MustLoad(sim.NewSimReader(d, sch))
+			case o.Fn == "oj.MustParse(invalid)":
+				v = oj.MustParse(doc(5 + o.A%2))
+			case o.Fn == "sen.MustParse(invalid)":
+				v = sen.MustParse(senDoc(2))
+			case o.Fn == "oj.MustParseString":
+				v = oj.MustParseString(string(doc(o.A % 3)))
+			default:
+				v, err = oj.ParseString(string(doc(5 + o.A%2)))
+			}
+		}()
+		r.canon = fmt.Sprint(err != nil) + ref.Exact(v)
+		if err == nil {
+			r.retained = []any{v}
+		}
+	case "sen.MustWrite(failing writer)", "sen.Write(failing writer, big)":
+		sw := sim.NewSimWriter(o.B % 3)
+		var err error
+		func() {
+			defer func() {
+				if p := recover(); p != nil {
+					err = fmt.Errorf("%v", p)
+				}
+			}()
+			val := []any{strings.Repeat("y", 1100+o.A*20), o.B, "tail", strings.Repeat("z", 1100)}
+			if o.Fn == "sen.MustWrite(failing writer)" {
+				sen.MustWrite(sw, val)
+			} else {
+				err = sen.Write(sw, val)
+			}
+		}()
+		r.canon = fmt.Sprint(err != nil, len(sw.Buf))
 	case "jp.SetOne", "jp.DelOne", "jp.ModifyOne", "jp.RemoveOne", "jp.MustSet", "jp.MustDel", "jp.MustModify", "jp.MustRemove":
 		d := privateData(o.A)
 		x := c08Exprs[o.B%len(c08Exprs)]
